@@ -153,3 +153,22 @@ Definition config_obs (r : rawcfg) (e : envc) : bytes :=
   | Started k => str "started:" ++ ks (k_paa_enc k) ++ ks (k_paa_sign k) ++ ks (k_user_enc k) ++ ks (k_session k)
                  ++ ks (k_session_enc k)
   end.
+
+(** [ntlm] (C14) cases: histories over the symbolic verifier. *)
+From RDPGW Require Import Model.Ntlm.
+
+Fixpoint assoc_bytes (k : bytes) (l : list (bytes * bytes)) : bytes :=
+  match l with
+  | [] => []
+  | (k', v) :: r => if bytes_eqb k k' then v else assoc_bytes k r
+  end.
+
+Definition ntlm_obs (db : list (bytes * bytes)) (ops : list nop) : bytes :=
+  let show (o : nout) : bytes :=
+    match o with
+    | OErr => str "err"
+    | OChallenge _ => str "chal"
+    | OAuthOK u => str "ok:" ++ hexs u
+    | ONotAuth => str "no"
+    end in
+  join [x2c] (map show (nrun (fun u => assoc_bytes u db) nstate0 ops)).
